@@ -272,7 +272,7 @@ def _conc_common(m, info):
 
 
 # -------------------------------------------------------------------------------------------- H1 programs
-def h1_programs(K=2, first=None, second=None, timeout=200, part=None, **kw):
+def h1_programs(K=2, first=None, second=None, timeout=200, part=None, one_matrix=False, **kw):
     shims = _shims()
     import pdfminer.pdfinterp as pi
     import pdfminer.pdfdevice as pd
@@ -294,6 +294,8 @@ def h1_programs(K=2, first=None, second=None, timeout=200, part=None, **kw):
                 o = OPS[ex.choice(len(OPS), "op%d" % k)]
             a = [ex.real("a%d_%d" % (k, i), -100, 100) for i in range(NARGS[o])]
             prog.append((o, a))
+        if one_matrix and sum(1 for p in prog if p[0] in ("Tm", "cm")) > 1:
+            raise symx.Abort()                        # programs with two symbolic matrices: thorough tier only (quartic terms)
         prog.append(("Tj", []))                       # a final probe glyph pair makes every state change observable
         info = {"prog": [p[0] for p in prog], "bbox": not any(p[0] in ("Tm", "cm") for p in prog)}
         for o, a in prog:
@@ -316,7 +318,7 @@ def h1_programs(K=2, first=None, second=None, timeout=200, part=None, **kw):
     return core.run_symx("H1_programs", fn, fns,
                          {"program": "BT, Tf, then %d operators chosen symbolically from %s, then Tj" % (K, " ".join(OPS)), "operands": "all symbolic reals in [-100,100]",
                           "widths": "symbolic in [0,2000] for codes 65,66,32", "first": OPS[first] if first is not None else "any",
-                          "second": OPS[second] if second is not None else "any"},
+                          "second": OPS[second] if second is not None else "any", "at_most_one_of_Tm_cm": one_matrix},
                          timeout, concretize=_conc_common, shims={"namespace_shims": shims}, part=part)
 
 
@@ -611,6 +613,8 @@ def jobs(tier):
     if tier == "quick":
         for f in range(len(OPS)):
             J.append(Job("H1_programs:K2:%s" % OPS[f], "h1_programs", {"K": 2, "first": f}, 200, "H1_programs"))
+        for f in range(len(OPS)):
+            J.append(Job("H1_programs:K3:%s" % OPS[f], "h1_programs", {"K": 3, "first": f, "one_matrix": True}, 300, "H1_programs"))
     else:
         for f in range(len(OPS)):
             for s2 in range(len(OPS)):
